@@ -1,9 +1,9 @@
 package c13
 
 import (
+	"bytes"
 	"context"
 	"fmt"
-	"bytes"
 	"strconv"
 	"strings"
 	"sync"
